@@ -136,6 +136,25 @@ def _js(v):
     return v
 
 
+def _jsonable_spec(spec, reg):
+    """A type spec as JSON-able data, record names expanded to their fields (for replay)."""
+    if spec is None or isinstance(spec, (int, float, bool)):
+        return spec
+    if isinstance(spec, str):
+        if spec in reg.records:
+            return ['record', spec, {f: _jsonable_spec(t, reg) for f, t in reg.records[spec].items()}]
+        return spec
+    if isinstance(spec, dict):
+        return {k: _jsonable_spec(v, reg) for k, v in spec.items()}
+    if isinstance(spec, (tuple, list)):
+        if spec and spec[0] == 'const':
+            import json as _j
+            _j.dumps(spec[1])            # must be plain data
+            return ['const', spec[1]]
+        return [_jsonable_spec(x, reg) for x in spec]
+    raise TypeError(f'spec {spec!r}')
+
+
 _BASE_CTX = None
 
 
@@ -599,6 +618,17 @@ class Verifier:
                               'baseline: the block contract no longer speaks about this function')
         o = ob(f'context:{fp}', 'exits (returns and their guards) preceding the block: fingerprint '
                'recorded with the baseline')
+        # replay recipe: the statements of the block as they stand in the real file, to be executed
+        # on the counter-model's inputs in the module's own namespace
+        try:
+            self._block_recipe = {
+                'kind': 'block', 'module': c.file[:-3].replace('/', '.'), 'qualname': c.qualname,
+                'source': '\n'.join(ast.unparse(x) for x in found),
+                'params': {k: _jsonable_spec(v, self.reg) for k, v in c.params.items()},
+                'rename': dict(rename),
+            }
+        except Exception:  # noqa: BLE001 - a spec that cannot be serialised: no replay
+            self._block_recipe = None
         st = State()
         ex = Executor(self.reg, consts)
         ex.cur_class = c.cls
@@ -705,6 +735,15 @@ class Verifier:
                               'baseline: the statement contract no longer speaks about this function')
         ob(f'context:{fp}', 'exits (returns and their guards) preceding the statement: fingerprint '
            'recorded with the baseline')
+        try:
+            self._block_recipe = {
+                'kind': 'block', 'module': c.file[:-3].replace('/', '.'), 'qualname': c.qualname,
+                'source': ast.unparse(node), 'value_name': node.targets[0].id,
+                'params': {k: _jsonable_spec(v, self.reg) for k, v in c.params.items()},
+                'rename': dict(rename) if isinstance(rename, dict) else {},
+            }
+        except Exception:  # noqa: BLE001
+            self._block_recipe = None
         st = State()
         ex = Executor(self.reg, consts)
         ex.cur_class = c.cls
@@ -783,18 +822,21 @@ class Verifier:
             return
         if res == 'sat':
             # prefer a small counter-model (shapes <= 6, other integers within +-12) for replay
-            small = []
-            for path, t in inputs:
-                if is_z3(t) and z3.is_int(t):
-                    if 'shape' in path or path.endswith('.len'):
-                        small.append(z3.And(t >= 0, t <= 6))
-                    else:
-                        small.append(z3.And(t >= -12, t <= 12))
-            if small:
+            for cap in (3, 6):
+                small = []
+                for path, t in inputs:
+                    if is_z3(t) and z3.is_int(t):
+                        if 'shape' in path or path.endswith('.len'):
+                            small.append(z3.And(t >= 0, t <= cap))
+                        else:
+                            small.append(z3.And(t >= -12, t <= 12))
+                if not small:
+                    break
                 r2, m2, _ = solve.check(list(hyps) + [z3.Not(goal)] + small, timeout_s=5,
-                                        want_model=True, tag=o.oid + '_small')
+                                        want_model=True, tag=o.oid + f'_small{cap}')
                 if r2 == 'sat' and m2 is not None:
                     model = m2
+                    break
             o.status = REFUTED
             o.detail = f'counter-model for: {what}'
             try:
@@ -802,6 +844,10 @@ class Verifier:
             except Exception as e:  # model extraction must not mask the refutation
                 o.model = {'_error': str(e)}
             o.model['_case'] = {k: v for k, v in case.items()}
+            if (c.block or c.stmt) and getattr(self, '_block_recipe', None) and not c.replay:
+                o.replay = dict(self._block_recipe)
+                o.replay['ensures'] = [list(x) for x in c.ensures]
+                o.replay['requires'] = list(c.requires)
             if c.replay:
                 # a few more counter-models (different scalar inputs): uninterpreted functions
                 # (sin, asin, exp ...) may make the first one an artefact that does not replay
